@@ -4,6 +4,9 @@ package trzsz
 
 import (
 	"bytes"
+	"io"
+	"os"
+	"sync"
 	"time"
 )
 
@@ -35,4 +38,206 @@ func VerifCheckInteger(expect int64, text string) bool {
 	t := newTransfer(&out, nil, false, nil)
 	t.addReceivedData([]byte("#SUCC:"+text+"\n"), false)
 	return t.checkInteger(expect, time.After(time.Second)) == nil
+}
+
+// VerifRecvAfterStop arms the stop flag (keep or delete) on a fresh transfer and then calls
+// the given reader; it returns the error text the reader reports.
+// reader: "line" (recvLine), "linejunk" (recvLine with junk tolerance), "v2" (recvCheckV2),
+// "senddata" (sendData), "gate" (checkStopAndPause)
+func VerifRecvAfterStop(reader string, windows bool, del bool, protocol int) string {
+	var out bytes.Buffer
+	t := newTransfer(&out, nil, false, nil)
+	t.transferConfig.Timeout = 1
+	t.transferConfig.Protocol = protocol
+	t.windowsProtocol = windows
+	if windows {
+		t.transferConfig.Newline = "!\n"
+	}
+	go func() {
+		time.Sleep(30 * time.Millisecond)
+		t.stopTransferringFiles(del)
+	}()
+	var err error
+	switch reader {
+	case "line":
+		_, err = t.recvLine("SUCC", false, time.After(2*time.Second))
+	case "linejunk":
+		_, err = t.recvLine("SUCC", true, time.After(2*time.Second))
+	case "v2":
+		_, _, _, err = t.recvCheckV2("SUCC")
+	case "senddata":
+		time.Sleep(60 * time.Millisecond)
+		err = t.sendData([]byte("x"))
+	case "gate":
+		time.Sleep(60 * time.Millisecond)
+		err = t.checkStopAndPause("DATA")
+	}
+	if err == nil {
+		return ""
+	}
+	return err.Error()
+}
+
+// ---- C02: the per-file receiver and sender sequences of recvFiles / sendFiles on scripted input ----
+
+// VerifFileCfg is the part of transferConfig the per-file exchange depends on.
+type VerifFileCfg struct {
+	Protocol   int
+	Binary     bool
+	Compress   int // 0 auto, 1 yes, 2 no
+	Table      *VerifEscapeTable
+	TimeoutSec int
+}
+
+func (c VerifFileCfg) newTransfer(w io.Writer) *trzszTransfer {
+	t := newTransfer(w, nil, false, nil)
+	t.transferConfig.Protocol = c.Protocol
+	t.transferConfig.Binary = c.Binary
+	t.transferConfig.CompressType = compressType(c.Compress)
+	t.transferConfig.EscapeTable = c.Table
+	t.transferConfig.Timeout = c.TimeoutSec
+	return t
+}
+
+type verifMemWriter struct {
+	mu  sync.Mutex
+	buf bytes.Buffer
+}
+
+func (f *verifMemWriter) Write(p []byte) (int, error) {
+	f.mu.Lock()
+	defer f.mu.Unlock()
+	return f.buf.Write(p)
+}
+func (f *verifMemWriter) Close() error      { return nil }
+func (f *verifMemWriter) getFile() *os.File { return nil }
+func (f *verifMemWriter) bytes() []byte {
+	f.mu.Lock()
+	defer f.mu.Unlock()
+	return append([]byte(nil), f.buf.Bytes()...)
+}
+
+type verifMemReader struct {
+	r    *bytes.Reader
+	size int64
+}
+
+func (f *verifMemReader) Read(p []byte) (int, error) { return f.r.Read(p) }
+func (f *verifMemReader) Close() error               { return nil }
+func (f *verifMemReader) getFile() *os.File          { return nil }
+func (f *verifMemReader) getSize() int64             { return f.size }
+
+// VerifRecvOneFile runs what recvFiles does for one file after the SIZE exchange
+// (recvFileDataV2 or recvFileData, then recvFileMD5) on the delivered chunks.  It reports
+// whether the file was accepted (the MD5 line answered with SUCC), the bytes written to the
+// file, the bytes written to the connection, whether the error was the receive timeout, and
+// whether nothing was decided before the deadline.
+func VerifRecvOneFile(cfg VerifFileCfg, size int64, delivered [][]byte, deadline time.Duration) (accepted bool, written []byte, replies []byte, timedOut bool, hung bool) {
+	out := &verifMemWriter{}
+	t := cfg.newTransfer(out)
+	for _, c := range delivered {
+		t.addReceivedData(c, false)
+	}
+	file := &verifMemWriter{}
+	done := make(chan error, 1)
+	go func() {
+		var digest []byte
+		var err error
+		if cfg.Protocol >= kProtocolVersion2 {
+			digest, err = t.recvFileDataV2(file, size, nil)
+		} else {
+			digest, err = t.recvFileData(file, size, nil)
+		}
+		if err == nil {
+			err = t.recvFileMD5(digest, nil)
+		}
+		done <- err
+	}()
+	select {
+	case err := <-done:
+		return err == nil, file.bytes(), out.bytes(), err == errReceiveDataTimeout, false
+	case <-time.After(deadline):
+		t.stopTransferringFiles(false)
+		select {
+		case <-done:
+		case <-time.After(2 * time.Second):
+		}
+		return false, file.bytes(), out.bytes(), false, true
+	}
+}
+
+// VerifSendOneFile runs what sendFiles does for one file after the SIZE exchange
+// (sendFileDataV2 or sendFileData, then sendFileMD5).  Every write of the sender is handed to
+// respond, whose result is delivered to the sender.  It reports whether the sender counts the
+// file as done.
+func VerifSendOneFile(cfg VerifFileCfg, content []byte, respond func(written []byte) [][]byte, deadline time.Duration) (done bool, timedOut bool, hung bool) {
+	var t *trzszTransfer
+	t = cfg.newTransfer(verifWriterFunc(func(p []byte) {
+		for _, c := range respond(append([]byte(nil), p...)) {
+			t.addReceivedData(c, false)
+		}
+	}))
+	file := &verifMemReader{bytes.NewReader(content), int64(len(content))}
+	res := make(chan error, 1)
+	go func() {
+		var digest []byte
+		var err error
+		if cfg.Protocol >= kProtocolVersion2 {
+			digest, err = t.sendFileDataV2(file, nil)
+		} else {
+			digest, err = t.sendFileData(file, nil)
+		}
+		if err == nil {
+			err = t.sendFileMD5(digest, nil)
+		}
+		res <- err
+	}()
+	select {
+	case err := <-res:
+		return err == nil, err == errReceiveDataTimeout, false
+	case <-time.After(deadline):
+		t.stopTransferringFiles(false)
+		select {
+		case <-res:
+		case <-time.After(2 * time.Second):
+		}
+		return false, false, true
+	}
+}
+
+type verifWriterFunc func(p []byte)
+
+func (f verifWriterFunc) Write(p []byte) (int, error) { f(p); return len(p), nil }
+
+// VerifDecodeFrames runs the decoder stack of pipelineDecodeData (base64 or escape reader,
+// optionally under a zstd reader) over the given frames; it returns what the stack produced
+// before the end of the frames or the first error.
+func VerifDecodeFrames(binary, compress bool, table *VerifEscapeTable, frames [][]byte) ([]byte, error) {
+	src := VerifNewRecvDataReader(frames)
+	var reader readCloser
+	var err error
+	if binary {
+		reader = newEscapeReader(table, src)
+	} else {
+		reader = newBase64Reader(src)
+	}
+	if compress {
+		reader, err = newZstdReader(reader)
+		if err != nil {
+			return nil, err
+		}
+	}
+	defer reader.Close()
+	var out []byte
+	for {
+		buffer := make([]byte, 32*1024)
+		n, err := reader.Read(buffer)
+		out = append(out, buffer[:n]...)
+		if err == io.EOF {
+			return out, nil
+		}
+		if err != nil {
+			return out, err
+		}
+	}
 }
